@@ -495,6 +495,9 @@ func c10Classify(c c10Case) (nontrivial bool, labels []string) {
 	if i := c.first("cmdline"); i >= 0 {
 		text := c.Tags[i].Cmd
 		ref := c10RefCmdline(text)
+		if len(text) > 4096 {
+			add("cmdline-longer-than-a-page")
+		}
 		if len(ref.want) == 0 && len(ref.loose) == 0 {
 			if text == "" {
 				add("cmdline-empty")
@@ -609,6 +612,18 @@ func c10GenCmdline(t *rapid.T) string {
 	}
 	var sb strings.Builder
 	sb.WriteString(c10GenBlank(t, 0, 3, "lead"))
+	if rapid.IntRange(0, 29).Draw(t, "longcmd") == 0 {
+		// a command line of several kilobytes: hundreds of entries, or one entry with a very long
+		// value, followed by the usual handful of generated tokens
+		w := c10Word.Draw(t, "longword")
+		if rapid.Bool().Draw(t, "longvalue") {
+			sb.WriteString(w + "=" + strings.Repeat("v", rapid.SampledFrom([]int{4000, 4096, 5000, 70000}).Draw(t, "valuelen")) + " ")
+		} else {
+			for i, n := 0, rapid.SampledFrom([]int{300, 450, 700, 3000}).Draw(t, "nlong"); i < n; i++ {
+				fmt.Fprintf(&sb, "%s%d=%d%s ", w, i, i*7, w)
+			}
+		}
+	}
 	n := rapid.IntRange(0, 6).Draw(t, "ntokens")
 	var keys []string
 	for i := 0; i < n; i++ {
@@ -665,7 +680,16 @@ func c10GenMmap(t *rapid.T) *c10Mmap {
 		m.Regions = rapid.SliceOfN(c10RegionGen, 1, 1).Draw(t, "regions")
 	case 9:
 		m.Regions = rapid.SliceOfN(c10RegionGen, 0, 10).Draw(t, "regions")
-		m.Regions = append(m.Regions, rapid.SliceOfN(c10RegionGen, 20, c10MaxRegions-10).Draw(t, "moreregions")...)
+		m.Regions = append(m.Regions, rapid.SliceOfN(c10RegionGen, 20, 30).Draw(t, "moreregions")...)
+		if rapid.IntRange(0, 3).Draw(t, "bulkregions") == 0 {
+			// a firmware map of hundreds of entries: the drawn ones repeated at other addresses
+			base := m.Regions
+			for total := rapid.SampledFrom([]int{100, 128, 129, 256, 257, 600}).Draw(t, "nbulk"); len(m.Regions) < total; {
+				r := base[len(m.Regions)%len(base)]
+				r.A += uint64(len(m.Regions)) << 32
+				m.Regions = append(m.Regions, r)
+			}
+		}
 	default:
 		m.Regions = rapid.SliceOfN(c10RegionGen, 0, 10).Draw(t, "regions")
 	}
@@ -739,6 +763,15 @@ func c10GenElf(t *rapid.T) *c10Elf {
 		lo, hi = 1, 1
 	}
 	drafts := rapid.SliceOfN(c10SecGen, lo, hi).Draw(t, "sections")
+	if len(drafts) > 0 && rapid.IntRange(0, 39).Draw(t, "bulksections") == 0 {
+		// an image with very many sections (-ffunction-sections style): the drawn ones repeated
+		base := drafts
+		for total := rapid.SampledFrom([]int{33, 64, 65, 128, 200}).Draw(t, "nbulksec"); len(drafts) < total; {
+			d := base[len(drafts)%len(base)]
+			d.s.Addr += uint64(len(drafts)) << 24
+			drafts = append(drafts, d)
+		}
+	}
 	n := len(drafts)
 	// string table: optional leading NUL, then names, each followed by NUL
 	var starts []uint32
@@ -806,7 +839,7 @@ func c10GenRaw(t *rapid.T) c10Tag {
 		}
 	} else if rapid.IntRange(0, 11).Draw(t, "bigraw") == 0 {
 		// a large tag (e.g. VBE info is 784 bytes): pushes the block over a page
-		n := rapid.IntRange(200, c10MaxRaw).Draw(t, "rawlen")
+		n := rapid.IntRange(200, 1023).Draw(t, "rawlen")
 		tag.Raw = make([]byte, n)
 		fill := rapid.Byte().Draw(t, "rawfill")
 		for i := range tag.Raw {
@@ -847,7 +880,7 @@ func c10GenCase(t *rapid.T) c10Case {
 		// several large tags: the block spans more than one page
 		k := rapid.IntRange(4, 6).Draw(t, "nbulk")
 		for i := 0; i < k; i++ {
-			raw := make([]byte, rapid.IntRange(900, c10MaxRaw).Draw(t, "bulklen"))
+			raw := make([]byte, rapid.IntRange(900, 1023).Draw(t, "bulklen"))
 			for j := range raw {
 				raw[j] = byte(j*7 + i)
 			}
